@@ -218,7 +218,12 @@ def run(ctx):
     #    (both tiers use every argument template)
     rc, meas, err = ctx.harness(["gates-measure", "-repo", common.REPO, "-dir", ctx.scratch, "-thorough"], timeout=900)
     if meas.get("unstable"):
-        raise common.Infra("leader measurements differ between two runs: %s" % meas["unstable"][:5])
+        # (instance, wrapper) cells whose effect on a leader depends on timing, e.g. FOLLOW (the session it starts is
+        # asynchronous): the harness keeps the weaker of the two measurements for them; many such cells mean trouble
+        if len(meas["unstable"]) > 6:
+            raise common.Infra("leader measurements differ between two runs for %d cells: %s" % (len(meas["unstable"]), meas["unstable"][:5]))
+        ctx.notes.append("measured twice with different outcomes (the weaker measurement is used): %s" % "; ".join(meas["unstable"]))
+        ctx.log("measurement: %d cells differ between the two runs (weaker measurement used): %s" % (len(meas["unstable"]), meas["unstable"]))
     ncmd, ninst, ncell = len(meas["commands"]), len(meas["instances"]), len(meas["cells"])
     nmut = sum(1 for c in meas["cells"] if c["mut"])
     ndata = sum(1 for c in meas["cells"] if c["data"])
